@@ -9,7 +9,7 @@ Definition dec_Z (sg n : N) : Z := if sg =? 1 then Z.opp (Z.of_N n) else Z.of_N 
 Definition enc_Z (z : Z) : list sexp := [A (if Z.ltb z 0 then 1 else 0); A (Z.to_N (Z.abs z))].
 
 (* values: (0) None, (1 b) bool, (2 sg abs) int, (3 str) str, (4 (..)) list, (5 ((k v)..)) dict,
-   (6 sg abs) range, (7) Undefined *)
+   (6 sg abs) range, (7) Undefined, (8 (..)) tuple *)
 Fixpoint enc_value (v : value) : sexp :=
   match v with
   | VNone => L [A 0]
@@ -20,6 +20,7 @@ Fixpoint enc_value (v : value) : sexp :=
   | VDict d => L [A 5; L (map (fun kv => L [enc_str (fst kv); enc_value (snd kv)]) d)]
   | VRange n => L (A 6 :: enc_Z n)
   | VUndef => L [A 7]
+  | VTuple l => L [A 8; L (map enc_value l)]
   end.
 
 Fixpoint dec_value (fuel : nat) (x : sexp) : option value :=
@@ -43,6 +44,7 @@ Fixpoint dec_value (fuel : nat) (x : sexp) : option value :=
                                  end) l)
     | L [A 6; A sg; A n] => Some (VRange (dec_Z sg n))
     | L [A 7] => Some VUndef
+    | L [A 8; L l] => option_map VTuple (dec_list_aux (dec_value f) l)
     | _ => None
     end
   end.
@@ -71,6 +73,16 @@ Fixpoint dec_expr (fuel : nat) (x : sexp) : option expr :=
     | L [A 11; a; b] => d2 EOr a b
     | L [A 12; a] => option_map ERange (dec_expr f a)
     | L [A 13; L l] => option_map EList (dec_list_aux (dec_expr f) l)
+    | L [A 14; L l] => option_map ETuple (dec_list_aux (dec_expr f) l)
+    | L [A 15; L l] =>
+      option_map EDict
+        (dec_list_aux (fun kv => match kv with
+                                 | L [k; v] => match dec_str k, dec_expr f v with
+                                               | Some k', Some v' => Some (k', v')
+                                               | _, _ => None
+                                               end
+                                 | _ => None
+                                 end) l)
     | _ => None
     end
   end.
@@ -130,6 +142,9 @@ Definition policies (sel : N) : undefined_policy * undefined_policy :=
   | _ => (env_undefined_policy, native_undefined_policy)
   end.
 
+(* fn 3: the cell entry points under EXPLICIT flags (0/1 each), policies by sel as above *)
+Definition flags_of (rf nrf nc : N) : uflags := mk_uflags (rf =? 1) (nrf =? 1) (nc =? 1).
+
 Definition dec_octx (x : sexp) : option (option ctx) :=
   match x with
   | L [] => Some None
@@ -163,7 +178,17 @@ Definition enc_event (e : event) : sexp :=
 
 Definition dispatch_c16 (fn : N) (args : list sexp) : sexp :=
   match fn, args with
-  | 0, [] => L [enc_policy env_undefined_policy; enc_policy native_undefined_policy]
+  | 0, [] => L [enc_policy env_undefined_policy; enc_policy native_undefined_policy;
+                enc_bool env_repr_fails; enc_bool native_repr_fails; enc_bool native_result_checked]
+  | 3, [A sel; A rf; A nrf; A nc; oc; c; A mode] =>
+    match dec_octx oc, dec_cell c with
+    | Some octx, Some cl =>
+      let '(pe, pn) := policies sel in
+      let fl := flags_of rf nrf nc in
+      L [enc_str (show_cell cl);
+         enc_pres (if mode =? 0 then parse_as_string_f fl pe pn octx cl else parse_f fl pe pn octx cl)]
+    | _, _ => s_badinput
+    end
   | 1, [A sel; oc; c; A mode] =>
     match dec_octx oc, dec_cell c with
     | Some octx, Some cl =>
